@@ -126,6 +126,13 @@ func (x *inst) enabled() []string {
 					out = append(out, "RevertO:"+o.Name)
 				}
 			}
+		case "SnapDupO":
+			if !m.Open || m.Mode != "RW" {
+				continue
+			}
+			for _, o := range m.Orphans {
+				out = append(out, "SnapDupO:"+o.Name)
+			}
 		case "RmO":
 			if !m.Open || m.Mode != "RW" {
 				continue
